@@ -266,7 +266,7 @@ pub fn main(tier: Tier, replay: Option<String>) -> i32 {
          must be identical. Non-trivial = some configuration has WAL on with the tiny checkpoint threshold or more than 64 files, and the history ran >= 3 DML statements; \
          distinct by hash of the case.",
     );
-    let cases = tier.pick(500, 30_000);
+    let cases = tier.pick(500, 5_000);
     vcore::drive(&ctx, &check, strategy, cases, 16);
     ctx.finish()
 }
